@@ -11,6 +11,7 @@ for s in $SEEDS; do   # TIER=thorough for the thorough commands
   (
     for p in $PROPS; do
       t0=$(date +%s)
+      [ -n "$VARY_HASH" ] && export PYTHONHASHSEED=$(( s * 7 + VARY_HASH ))   # string hashing differs between restores: verdicts must not depend on it
       VERIF_OUT="$S/$s" VERIF_SEED=$s "$HERE/check" $p --tier ${TIER:-quick} -v > "$S/$s.$p.log" 2>&1
       echo "$p seed=$s rc=$? $(( $(date +%s) - t0 ))s" >> "$S/$s.summary"
     done
